@@ -169,6 +169,11 @@ def iso(a, ex):
     return topology.are_isomorphic(a, a.copy())
 
 
+def iso_pair(a, ex):
+    """are_isomorphic on two different graphs (the second one travels in the task's extra)"""
+    return topology.are_isomorphic(a, mk(ex['graph2']), **ex.get('params', {}))
+
+
 ALGOS = {
     'Louvain': fit_plain(clustering.Louvain, 'labels_'),
     'Leiden': fit_plain(clustering.Leiden, 'labels_'),
@@ -208,6 +213,7 @@ ALGOS = {
     'count_cliques2': fn(topology.count_cliques, clique_size=2),
     'color_weisfeiler_lehman': fn(topology.color_weisfeiler_lehman),
     'are_isomorphic': iso,
+    'are_isomorphic_pair': iso_pair,
     'get_connected_components': fn(topology.get_connected_components),
     'get_largest_connected_component': fn(topology.get_largest_connected_component),
     'is_bipartite': fn(topology.is_bipartite),
